@@ -183,7 +183,12 @@ func TestVerifC18Socks(t *testing.T) {
 			t.Fatal(err)
 		}
 		res := map[string]any{"i": i, "k": c.K}
-		c18Socks(t, c, res)
+		if c.K == "rsocks" {
+			// relay phase on scripted conns (c18_relay_socks_test.go)
+			c18RelaySocks(t, raw, res)
+		} else {
+			c18Socks(t, c, res)
+		}
 		out.Emit(res)
 	}
 }
